@@ -593,8 +593,9 @@ impl OutQuery {
                  * should skip UDP and just use the existing TCP connection.
                  */
                 let reply = self.send_udp(addr, &oq).await?;
-                if reply.qid != id {
-                    /* This smells dangerously like a kaminisky attack.  Disregard the message, and immediately
+                if reply.qid != id || reply.question != oq.question {
+                    /* This smells dangerously like a kaminisky attack (or is a late reply to some
+                     * other query that used this port before).  Disregard the message, and immediately
                      * retry over TCP.
                      */
                     OUT_QUERY_RETRY
